@@ -251,3 +251,50 @@ func H_DecodePatch() {
 	}
 	vx.Reach("decode/end")
 }
+
+var c11Templates = []string{
+	`[{"op":"add","path":"/a","value":[1,2]},{"op":"remove","path":"/b"}]`,
+	`[{"op":"move","from":"/a","path":"/b"}]`,
+	` [ { "op" : "test" , "path" : "" , "value" : { "k" : null } } ] `,
+}
+
+// H_DecodePatch_Template: a valid patch document with k unconstrained bytes inserted at any position: if the
+// text is no longer well-formed JSON it must be rejected (nil Patch, error); if it still is well-formed and the
+// inserted bytes are whitespace it must still be accepted.
+func H_DecodePatch_Template() {
+	t := []byte(c11Templates[vx.Choose("template", len(c11Templates))])
+	k := vx.Param("k")
+	pos := vx.Choose("pos", len(t)+1)
+	x := vx.Bytes("x", k)
+	var text []byte
+	text = append(text, t[:pos]...)
+	text = append(text, x...)
+	text = append(text, t[pos:]...)
+	vx.Note("patch", text)
+	var p jsonpatch.Patch
+	var err error
+	panicked := vx.CatchPanic(func() { p, err = jsonpatch.DecodePatch(text) })
+	vx.Assert(!panicked, "C04/decodepatch-no-panic")
+	if panicked {
+		return
+	}
+	if !refValid(text) {
+		vx.Assert(err != nil && p == nil, "C11/malformed-rejected")
+		vx.Reach("decode/template/malformed")
+		return
+	}
+	allWS := true
+	for _, b := range x {
+		if !isWS(b) {
+			allWS = false
+		}
+	}
+	orig, _ := parseJSON(t)
+	now, okNow := parseJSON(text)
+	if allWS && okNow && refEqualOrdered(orig, now) {
+		// insignificant whitespace: the document denotes the same patch
+		vx.Assert(err == nil && p != nil, "C11/whitespace-anywhere-accepted")
+		vx.Reach("decode/template/whitespace")
+	}
+	vx.Reach("decode/template/end")
+}
